@@ -32,11 +32,18 @@ def open_rd(fmt, path, r):
 def write(fmt, f, path):
     core.load_lib()
     from PseudoNetCDF.camxfiles import Writers
+    import os
     out = getattr(Writers, 'ncf2' + fmt)(f, path)
+    # the file is complete when the writer returns, whether or not the caller keeps (or closes) what it returns
+    before = os.path.getsize(path)
     try:
         out.close()
     except Exception:
         pass
+    after = os.path.getsize(path)
+    if before != after:
+        raise IOError('ncf2%s returned with %d bytes on disk; %d once the returned object was closed'
+                      % (fmt, before, after))
 
 
 CRNAMES = {'cloud': 'CLOUD', 'rain': 'RAIN', 'snow': 'SNOW', 'graupel': 'GRAUPEL', 'cod': 'COD', 'precip': 'PRECIP'}
